@@ -55,7 +55,8 @@ fn run(input: RunInput) -> ScenFuture {
         let mut cfg = base_config(10_000, Some(2_000));
         cfg.quic.as_mut().unwrap().max_concurrent_bidi_streams = Some(max_bidi);
         cfg.max_frame_size = frame_limit;
-        cfg.inbound_request_timeout_ms = w.flag("h_inbound_timeout", 0.5).then_some(2_000);
+        // (also shorter than the time a slowly written request takes to arrive)
+        cfg.inbound_request_timeout_ms = w.flag("h_inbound_timeout", 0.5).then(|| [20u64, 100, 300, 2_000][w.param("h_inbound_timeout_class", 0, 3) as usize]);
         let echo = Svc::echo(&w);
         let slow = Svc::new(&w, Arc::new(|req: &Request<Bytes>| Plan { delay: Duration::from_millis(300), response: Response::new(req.body().clone()), hold: Duration::ZERO }));
         let router = anemo::Router::new()
